@@ -460,6 +460,17 @@ Theorem c13_walk_future_steps_modelled :
 Proof. repeat split. Qed.
 Print Assumptions c13_walk_future_steps_modelled.
 
+(* the unwinder awaits nothing but its own async fns and the three SymbolProvider methods: a walk can be suspended only inside
+   a symbol lookup (the premise of the adaptive model) *)
+Theorem c13_walk_awaits_modelled :
+  RM.Gen.C13Sites.walk_await_callees = map fst modelled_walk_await_callees /\
+  forallb (fun e : string * site_class => match snd e with
+             | SymbolizerC12 => existsb (String.eqb (fst e)) ["fill_symbol"; "walk_frame"; "get_file_path"]
+             | WalkInternal => existsb (String.eqb (fst e)) RM.Gen.C13Sites.unwinder_async_fns
+             | _ => false end) modelled_walk_await_callees = true.
+Proof. split; reflexivity. Qed.
+Print Assumptions c13_walk_awaits_modelled.
+
 (* the ASCII constants of the model are the words they stand for, and the byte table is the string table *)
 Theorem c13_constants_spelled :
   N_ID = bytes_of_string "id" /\ N_RELEASE = bytes_of_string "release" /\ N_CODENAME = bytes_of_string "codename" /\
